@@ -315,3 +315,41 @@ func Trace65(c *cpu65c816.CPU, ram *[1 << 24]byte, op byte) []byte {
 //@   assigns c.Bus.M
 
 func TraceAlt(c *cpualt.CPU, ram *[1 << 24]byte, op byte, w io.Writer) { c.DisassembleCurrentPC(w) }
+
+// ---- C12: "... until the CPU is reset": Reset clears the stop condition (and loads the reset vector) ----
+
+//@ lemma Reset65 property C12
+//@   harness flat65 cpu=c ram=ram op=op
+//@   ops EA
+//@   nosafety
+//@   ensures !c.Stopped && c.RK == 0 && c.RDBR == 0 && c.RD == 0 && c.SP == 0x01ff
+//@   ensures c.PC == uint16(old(ram[0xFFFC])) | uint16(old(ram[0xFFFD]))<<8
+
+func Reset65(c *cpu65c816.CPU, ram *[1 << 24]byte, op byte) { c.Reset() }
+
+//@ lemma ResetAlt property C12
+//@   harness flatalt cpu=c ram=ram op=op
+//@   ops EA
+//@   nosafety
+//@   ensures !c.Stopped && c.RK == 0 && c.RDBR == 0 && c.RD == 0 && c.SP == 0x01ff
+//@   ensures c.PC == uint16(old(ram[0xFFFC])) | uint16(old(ram[0xFFFD]))<<8
+
+func ResetAlt(c *cpualt.CPU, ram *[1 << 24]byte, op byte) { c.Reset() }
+
+// A stopped CPU stays stopped whatever is at K:PC (the stop condition holds "from the moment STP has executed").
+
+//@ lemma StoppedStays65 property C12
+//@   harness flat65 cpu=c ram=ram op=op
+//@   nosafety
+//@   requires c.Stopped
+//@   ensures c.Stopped && ret2 && ret1 >= 1
+
+func StoppedStays65(c *cpu65c816.CPU, ram *[1 << 24]byte, op byte) (int, bool) { return c.Step() }
+
+//@ lemma StoppedStaysAlt property C12
+//@   harness flatalt cpu=c ram=ram op=op
+//@   nosafety
+//@   requires c.Stopped
+//@   ensures c.Stopped && ret2 && ret1 >= 1
+
+func StoppedStaysAlt(c *cpualt.CPU, ram *[1 << 24]byte, op byte) (int, bool) { return c.Step() }
